@@ -209,6 +209,10 @@ def run(ctx):
     R.floor("state_tables", len(state_tables), 3)
     for dm in ("reorg", "clear_caches", "commit_changes"):
         T.clause_tables(R, F, dm, only_fields=state_tables)
+    # ... "across reorgs": a deposit of an orphaned block must be rolled back even by a reorg of the maximum accepted depth, so the
+    # history of a balance slot may be dropped only once it is outside the window (is_old / pruning guards exactly the window)
+    import windowrules as W7
+    W7.clause_history_window(R, F)
     # "no transaction a user can submit can create or destroy tokens": the public simulation end points execute arbitrary calls
     # with any sender (the indexer address included); nothing they do may reach the database (no commit capability, no store
     # into a state container) - otherwise eth_callMany(from = indexer, mint(..)) mints
